@@ -70,9 +70,39 @@ func HopN(e error, k int) error {
 // of those payloads are made unresolvable on the way in and restored on
 // the way out, so that only what the process itself does with the
 // message can differ.
+//
+// Declining: for the types it does not know, the process is not without a
+// decoder but has a LEAF decoder that declines (returns nil) — an older
+// version of the type that cannot read this payload, or a type that used to
+// be a plain leaf. The library then falls back to the opaque representation
+// exactly as if there were no decoder (for a node that carries multi-error
+// causes: the one that keeps them).
 type Proc struct {
-	Forget  []string
-	NoProto bool
+	Forget    []string
+	NoProto   bool
+	Declining bool
+}
+
+func declined(context.Context, string, []string, proto.Message) error { return nil }
+
+// forget puts p's knowledge into effect and returns the function that undoes it.
+func (p Proc) forget() (restore func()) {
+	if len(p.Forget) == 0 {
+		return func() {}
+	}
+	undo := errbase.VerifForgetTypes(p.keys())
+	if !p.Declining {
+		return undo
+	}
+	for _, k := range p.keys() {
+		errbase.RegisterLeafDecoder(k, declined)
+	}
+	return func() {
+		for _, k := range p.keys() {
+			errbase.RegisterLeafDecoder(k, nil)
+		}
+		undo()
+	}
 }
 
 func (p Proc) mangle(b []byte) []byte {
@@ -123,11 +153,7 @@ func (p Proc) keys() []errbase.TypeKey {
 // process's knowledge is in effect; it returns the bytes the process
 // would forward. observe may be nil.
 func (p Proc) Receive(b []byte, observe func(d error)) (out []byte) {
-	restore := func() {}
-	if len(p.Forget) > 0 {
-		restore = errbase.VerifForgetTypes(p.keys())
-	}
-	defer restore()
+	defer p.forget()()
 	d := DecBytes(p.mangle(b))
 	if observe != nil {
 		observe(d)
@@ -264,11 +290,7 @@ func DriftOwner(a, b *errorspb.EncodedError) string {
 
 // Decode decodes b at process p (its knowledge in effect during the decode).
 func (p Proc) Decode(b []byte) error {
-	restore := func() {}
-	if len(p.Forget) > 0 {
-		restore = errbase.VerifForgetTypes(p.keys())
-	}
-	defer restore()
+	defer p.forget()()
 	return DecBytes(p.mangle(b))
 }
 
